@@ -41,8 +41,17 @@ func genesis4L() *sim.Genesis {
 	}
 }
 
+// genesis3s: small stakes matter: validator minimum 1 RIGO, up to 4 validators.
+func genesis3s() *sim.Genesis {
+	g := genesis3()
+	g.Params = map[string]string{"minValidatorStake": "1000000000000000000", "maxValidatorCnt": "4"}
+	return g
+}
+
 func genesisByName(n string) *sim.Genesis {
 	switch n {
+	case "g3s":
+		return genesis3s()
 	case "g1":
 		return genesis1()
 	case "g4L":
@@ -113,6 +122,30 @@ func denseHistory(g *sim.Genesis) sim.History {
 		blk(tr("U0", "U1", "1R"), unstk("V3", "V3", "V3", 0)),
 		blk(tr("U1", "U0", "2R"), call("U0", "contract:0", "", "0")),
 		blk(tr("X", "W", "1")),
+	}}
+}
+
+func blkO(o sim.BlockOpts, txs ...sim.TxSpec) sim.Block {
+	if o.Proposer == "" {
+		o.Proposer = "V0"
+	}
+	return sim.Block{Opts: o, Txs: txs}
+}
+
+// smallStakeHistory: power-1 stakes, misbehaviour evidence (stakes too small to be reduced are
+// forfeited), repeated evidence, a validator missing signatures until it is jailed, re-staking
+// on a delegatee that lost everything.  Used with genesis3s.
+func smallStakeHistory(g *sim.Genesis) sim.History {
+	return sim.History{Gen: g, Blocks: []sim.Block{
+		blk(stk("W", "W", "1R"), stk("U0", "V1", "1R"), stk("U1", "V2", "3R")),
+		blk(stk("U0", "W", "1R"), stk("U0", "V1", "4R")),
+		blkO(sim.BlockOpts{Evidence: []string{"W"}}, tr("U0", "U1", "1R")),
+		blkO(sim.BlockOpts{Evidence: []string{"V1"}, Absent: []string{"V2"}}, prop("V0", 1, 2, 1, `{"slashRatio":"33"}`)),
+		blkO(sim.BlockOpts{Absent: []string{"V2"}}, stk("W", "W", "1R"), vote("V0", 0, 0), vote("V1", 0, 0)),
+		blkO(sim.BlockOpts{Evidence: []string{"V1", "V1"}}, stk("U1", "W", "1R"), vote("V2", 0, 0)),
+		blkO(sim.BlockOpts{Absent: []string{"V1"}}, unstk("U1", "U1", "V2", 0), wdr("V0", "7")),
+		blkO(sim.BlockOpts{Evidence: []string{"X"}}, stk("U0", "V1", "1R")),
+		blk(tr("U1", "U0", "1")),
 	}}
 }
 
